@@ -255,6 +255,12 @@ func (e *StringExpr) Check(ctx *CheckCtx) error {
 }
 
 func (e *NotExpr) Check(ctx *CheckCtx) error {
+	// The operand may be the name of a select field
+	if name, ok := e.Right.(*NameExpr); ok {
+		if nexpr, have := ctx.GetNamedExpr(name.Data); have {
+			e.Right = &FieldReferenceExpr{Name: name, FieldExpr: nexpr}
+		}
+	}
 	if err := e.Right.Check(ctx); err != nil {
 		return err
 	}
